@@ -77,7 +77,8 @@ def diagnose(pid, spec, case, out, v):     # pylint: disable=unused-argument,too
             return 'rawstack:positional-stack-actuals-on-call-with-keyword-arguments'
 
     # -- kind parameter of hoisted / stack-allocated temporaries used in a file that does not import it
-    if raw.startswith('build:') and 'has-no-IMPLICIT-type' in raw:
+    if raw.startswith('build:'):
+        # (the first compiler message kept may be a follow-up error of the undeclared kind: decide on the text)
         miss = _missing_kind(texts)
         if miss:
             if 'imports:module-level' in feats and 'hoist' in fam:
@@ -103,7 +104,7 @@ def diagnose(pid, spec, case, out, v):     # pylint: disable=unused-argument,too
             return 'scc-driver:block-index-assignment-moved-into-vector-loop:pool-allocator-assert'
         drv = texts.get('driver_mod.F90', '')
         n = case.names
-        pat = (r'DO\s+%s\s*=[^\n]*\n(?:(?!END\s*DO)[^\n]*\n)*?\s*(%s|%s)\s*=' % (n['hidx'], n['hup'], n['bidx']))
+        pat = (r'DO\s+%s\s*=[^\n]*\n(?:(?!\s*END\s*DO)[^\n]*\n)*?\s*(%s|%s)\s*=' % (n['hidx'], n['hup'], n['bidx']))
         if raw.startswith('run:') and re.search(pat, drv, re.I):
             return 'scc-driver:vector-section-wraps-block-index-and-bound-assignments'
 
